@@ -10,7 +10,8 @@ from ..common import MachineryFailure, import_dreye, pmap
 RULE = ("histories = states of MC_C14 (Estimator.tla): every call sequence up to the tree depth over the alphabet "
         "{register_system, register_bounds, register_adaptation, register_baseline, register_background_adaptation "
         "(add/replace, +-baseline), register_system_adaptation, register_targets, fit(), query} and one witness "
-        "history per distinct registered state up to the graph depth.  Each history is replayed into a fresh "
+        "history per distinct registered state up to the graph depth (TLC explores all of them; where a configuration "
+        "has more than a few thousand, a seeded sample is replayed).  Each history is replayed into a fresh "
         "ReceptorEstimator; after it all light answers (K, baseline, bounds, captures, relative captures, system "
         "captures, gamut classes of probe targets, flags) are compared with Answers(regState) of the spec, all heavy "
         "answers (fit, range_of_solutions, sampling, gamut metric, chromatic membership) with a fresh object built "
@@ -468,9 +469,14 @@ def run(ctx):
     for cfg in cfgs:
         res, ss = load(cfg)
         ctx.add_tlc(res)
-        if not thorough and cfg == "graph5":
+        # the model checker explores every history of the configuration; the replay into the real object (three
+        # representations, all queries) takes a (seeded) sample of them where there are too many
+        cap = (4000 if thorough else 500) if cfg == "graph5" else (4000 if thorough else None)
+        ctx.count("histories explored by TLC:" + cfg, len(ss))
+        if cap is not None and len(ss) > cap:
+            ss.sort(key=lambda s: repr(s["hist"]))
             rng.shuffle(ss)
-            ss = ss[:500]
+            ss = ss[:cap]
         for s in ss:
             key = repr(s["hist"])
             if key not in seen:
@@ -478,7 +484,7 @@ def run(ctx):
                 sts.append(s)
         ctx.count("histories:" + cfg, len(ss))
     # long random histories (beyond the exhaustive depth): TLC simulation mode, one behaviour per walk
-    sres, finals = tlc.simulate_final_states("mc/MC_C14", "mc/MC_C14_sim12.cfg", 1500 if thorough else 80, 13, ctx.seed + 1, "C14")
+    sres, finals = tlc.simulate_final_states("mc/MC_C14", "mc/MC_C14_sim12.cfg", 400 if thorough else 80, 13, ctx.seed + 1, "C14")
     nsim = 0
     for s in finals:
         if "hist" in s and repr(s["hist"]) not in seen:
